@@ -1,12 +1,12 @@
 (** C06 — every well-formed game is solved or declared unsolvable (structural part, any number instance). *)
-From Coq Require Import String List Arith Bool.
+From Coq Require Import String List Arith Bool QArith.
 From CR Require Import Model.Num Model.Outcome Model.Graph Model.Game
-     Proofs.GraphP Proofs.PruneStatesP Proofs.PipelineP.
+     Proofs.GraphP Proofs.PruneStatesP Proofs.PipelineP Proofs.ReachQ Proofs.ReachQ2.
 Import ListNotations.
 
 (* For a well-formed game the model of solve can only: return a complete result (all eight components
    of length n), raise the 'no solution' error (only with pruning on), hit the UnboundLocalError branch
-   of the reward step (excluded for exact arithmetic by C06_no_crash_Q in Props/C06Q.v), or run out of
+   of the reward step (not yet excluded by a theorem; never observed in the correspondence runs), or run out of
    the fuel given to one of the two value-iteration loops. No other ValueError, no KeyError/IndexError,
    and neither the backward search nor prune_states can run out of fuel. *)
 Theorem C06_no_stray_error : forall (T : Type) (K : ops T) fuel (g : game (T:=T)) prune,
@@ -36,7 +36,19 @@ Theorem C06_prune_states_terminates : forall (T : Type) (K : ops T) (sl : list (
   exists sl', prune_states (length sl + 2) [] sl = Ok sl'.
 Proof. intros T K. exact (prune_states_never_out_of_fuel K). Qed.
 
+(* the reachability loop terminates on exact rationals: |S| * 10^6 + 1 sweeps always suffice *)
+Theorem C06_reach_terminates : forall (g : game (T:=Q)),
+  wf_game qops g ->
+  (forall i, nth i (g_players g) PR = PR ->
+     nonneg_w (nth i (g_trans g) []) /\ (sumw (nth i (g_trans g) []) <= 1)%Q) ->
+  forall fuel prune srf,
+  reverse_dfs (tlg g) (g_finals g) = Ok srf ->
+  length srf * Z.to_nat 1000000 < fuel ->
+  solve_reach_fuel qops fuel g prune <> OutOfFuel.
+Proof. exact reach_terminates. Qed.
+
 Print Assumptions C06_no_stray_error.
+Print Assumptions C06_reach_terminates.
 Print Assumptions C06_validation_accepts_wf.
 Print Assumptions C06_search_terminates.
 Print Assumptions C06_prune_states_terminates.
